@@ -17,8 +17,8 @@ RULE = ('all tree shapes with <= 5 entries and >= 2 directories x {bfs, dfs} x {
         '{real chmod 000 searched as uid 65534, injected opendir EACCES / ENOENT / ENOTDIR, readdir error after 0 or 1 '
         'entries}, root itself failing alone and as one of two roots, deviation 2 (thorough) = every pair of directories; '
         'every file of a content tree x {chmod 000 as uid 65534, injected open EACCES, read EIO after n bytes with n across '
-        'the 8K/32K/64K buffers}, dangling links; output side: six formats x four result paths x outputs of 0..~2300 bytes x '
-        'filler-name alignment sweep x EVERY close offset 0..L; non-trivial = a fault or close offset was actually exercised')
+        'the 8K/32K/64K buffers}, dangling links, an archive with a member that cannot be opened; output side: six formats x four result paths x outputs of 0..~2300 bytes x '
+        'filler-name alignment sweep x EVERY close offset 0..L, and 8-20 KiB outputs x 64 alignments x offsets around every 1K/4K/8K/16K buffer boundary; non-trivial = a fault or close offset was actually exercised')
 ASSUMPTIONS = ['faults the OS cannot produce on demand are injected through the LD_PRELOAD shim; real permission faults use setpriv uid 65534',
                'rows inside a failing directory are unspecified (only containment in the fault-free rows is required)',
                'a content-derived cell of an unreadable file must be empty (or false for is_shebang)']
@@ -58,6 +58,14 @@ def _groups(tier, seed):
     for fk in ('chmod000', 'open:EACCES', 'read:0', 'read:1', 'read:8192', 'read:8193', 'read:32768', 'read:40000', 'read:65536', 'read:65537'):
         yield {'kind': 'file', 'fault': fk}
     yield {'kind': 'links'}
+    for mode in ('', ' dfs'):
+        for where in ('top', 'sub'):
+            yield {'kind': 'archive', 'mode': mode, 'where': where}
+    # outputs larger than every internal buffer, consumer gone from the start or at a buffer boundary
+    for fmt in (('json', 'html', 'csv') if tier == 'quick' else ('json', 'html', 'csv', 'list', 'tabs', 'lines')):
+        for path in ('stream', 'ordered'):
+            for lo in range(0, 64, 8):
+                yield {'kind': 'pipe-big', 'fmt': fmt, 'path': path, 'aligns': list(range(lo, lo + 8))}
     aligns = list(range(0, 64, 4)) if tier == 'quick' else list(range(64))
     for fmt in ('json', 'html', 'csv', 'list', 'tabs', 'lines'):
         for path in ('stream', 'ordered', 'aggregate', 'grouped'):
@@ -209,7 +217,8 @@ def eval_group(env, group, tier):
                 os.chmod(os.path.join(root, 'bad'), 0o755)
         elif kind == 'file':
             fk = group['fault']
-            files = {'e0': b'', 's10': b'#!x\nab\nNEEDLE', 'm40000': b'line NEEDLE\n' * 3334, 'b70000': b'#!' + b'z\n' * 34999}
+            files = {'e0': b'', 's10': b'#!x\nab\nNEEDLE', 'm40000': b'line NEEDLE\n' * 3334, 'b70000': b'#!' + b'z\n' * 34999,
+                     'h1m5': b'#!NEEDLE\n' + b'0123456789abcde\n' * 98304}
             tree = {n: F(data=d) for n, d in files.items()}
             tree['sub'] = D({'inner': F(data=b'NEEDLE\n')})
             core.materialise(root, tree)
@@ -293,6 +302,53 @@ def eval_group(env, group, tier):
                     if user == NOBODY and any(c not in ('', 'false') for c in rows['secret'][3:]):
                         ok, why = False, ('secret', rows['secret'])
                 emit(sub, ok, 'link-or-unreadable-target', dict(o.brief(), why=why, query=q))
+        elif kind == 'archive':
+            import io, zipfile
+            b_ = io.BytesIO()
+            with zipfile.ZipFile(b_, 'w') as z:
+                for nm in ('m1', 'm2', 'm3'):
+                    z.writestr(zipfile.ZipInfo(nm, (2020, 1, 2, 3, 4, 6)), b'data-' + nm.encode())
+            data = bytearray(b_.getvalue())
+            cd = bytes(data).find(b'PK\x01\x02', bytes(data).find(b'PK\x01\x02') + 1)    # central header of m2
+            data[cd + 8] |= 1                      # flagged as encrypted: the archive opens, this one member cannot be read
+            inner = {'a0': F(1), 'bad.zip': F(data=bytes(data)), 'z9': F(2), 'zd': D({'deep': F(3)})}
+            tree = inner if group['where'] == 'top' else {'s': D(inner), 'other': F(1)}
+            core.materialise(root, tree)
+            want = sorted('./' + p for p, n, l in core.walk_tree(tree))
+            for tail in ('', ' order by path'):
+                sub = ['archive', tail]
+                if only is not None and sub != only:
+                    continue
+                q = 'path from . archives' + group['mode'] + tail + ' into list'
+                o = env.run([q], cwd=root)
+                rows = [r_ for r_ in o.rows() if not r_.startswith('[')]
+                members = [r_ for r_ in o.rows() if r_.startswith('[')]
+                ok = not o.timeout and not o.panicked and o.rc in (0, 1) and sorted(rows) == want and len(set(members)) == len(members) <= 3 and \
+                    {'[./%sbad.zip] m1' % ('' if group['where'] == 'top' else 's/'), '[./%sbad.zip] m3' % ('' if group['where'] == 'top' else 's/')} <= set(members)
+                emit(sub, ok, 'archive-member-unreadable', dict(o.brief(), query=q, missing=[x for x in want if x not in rows]))
+        elif kind == 'pipe-big':
+            fmt, path = group['fmt'], group['path']
+            for al in group['aligns']:
+                tree = {'f%03d' % i: F(i % 9) for i in range(260)}
+                tree['0' + 'y' * al] = F(3)       # sorts first: shifts every later row against the buffer boundaries
+                d = env.newdir('pb')
+                try:
+                    core.materialise(d, tree)
+                    q = ('name, size, mode from .' + (' order by name' if path == 'ordered' else '')) + ' into ' + fmt
+                    full = env.run([q], cwd=d, preload=True, env={'FSX_READDIR': 'sorted'})
+                    Lb = len(full.out)
+                    for k in sorted({0, 1, 1023, 1024, 1025, 4095, 4096, 8191, 8192, 8193, 2 * 8192 - 1, 2 * 8192, Lb - 1, Lb}):
+                        if k > Lb:
+                            continue
+                        sub = [al, k]
+                        if only is not None and sub != only:
+                            continue
+                        o = env.run([q], cwd=d, preload=True, env={'FSX_READDIR': 'sorted', 'FSX_STDOUT_BUDGET': str(k)})
+                        ok = not o.timeout and not o.panicked and o.rc in (0, 1) and full.out.startswith(o.out) and len(o.out) <= k
+                        emit(sub, ok, 'stdout-closed-big:%s:%s' % (fmt, path), dict(o.brief(), query=q, offset=k, full_len=Lb, align=al), nt=k < Lb,
+                             sig=(fmt, path, o.rc))
+                finally:
+                    env.rmtree(d)
         elif kind == 'pipe':
             fmt, path, n, al = group['fmt'], group['path'], group['n'], group['align']
             tree = {'f%03d' % i: F(i % 9) for i in range(n)}
@@ -331,7 +387,7 @@ def eval_group(env, group, tier):
     finally:
         env.rmtree(root)
     # fold the many passing pipe offsets into one aggregate outcome per group
-    if kind == 'pipe':
+    if kind in ('pipe', 'pipe-big'):
         oks = [o for o in outs if o['status'] == 'ok']
         bad = [o for o in outs if o['status'] != 'ok']
         if oks:
